@@ -145,6 +145,45 @@ def run_rules(prog, tab):
                 continue
             rule = r2a if rule_id == "R05.2a" else r2b
             rule.ok(f, key, "holds on every path (path-sensitive walk, %d states)" % res["states"], line)
+    # R05.1 for a WMORE that is passed on from a callee: assuming the callee's result carries RC_WMORE, a stateless
+    # decoder may return that result only with its consumed count untouched (the callee's own business) or set to 0
+    from .. import assume
+    for f in decs:
+        if is_stateful(f):
+            continue
+        for b, i, e in f.calls():
+            if "asn_dec_rval" not in e.get("ret_type", "") or e.get("use") not in ("assigned", "init"):
+                continue
+            subj = assume.subject_of_call(e, "code")
+            if subj is None or subj.var is None:
+                continue
+            var = subj.var
+
+            def classify(rb, ri, re_, env=None, var=var):
+                env = env or {}
+                ex = re_.get("expr")
+                t = strip_casts(ex["tree"]) if ex else None
+                if not is_var(t):
+                    return "fail"       # literal-code returns are R05.1's own instances
+                v = env.get((t[1], "consumed"))
+                cd = env.get((t[1], "code"))
+                if isinstance(cd, int) and cd != 1:
+                    return "fail"       # the code was replaced by a constant other than WMORE
+                if t[1] != var and v is None:
+                    return "fail"
+                if v is None or v == 0:
+                    return "fail"
+                return "success"
+            hits = assume.explore(f, b, i, subj, 1, classify, origin_callid=e.get("id"), from_entry=False, subject_return_ok=False)
+            hits = [h for h in hits if h[0] == "success"]
+            key = "passes-on:%s" % (e.get("callee") or ("->" + e["slot"] if e.get("slot") else "indirect"))
+            if hits:
+                kind, rb, ri, re_, path, lost = hits[0]
+                r1.bad(f, key, "assuming this call answered RC_WMORE, the result is returned at line %s with its consumed count replaced by "
+                               "a non-zero expression although this decoder keeps no context: the caller skips bytes of a value that will be "
+                               "decoded from its start again" % re_.get("line"), e["line"], witness={"path": guards.path_lines(f, list(path))})
+            else:
+                r1.ok(f, key, "a WMORE of the callee is passed on with consumed untouched or 0", e["line"])
     return [r1, r2a, r2b]
 
 
